@@ -353,10 +353,16 @@ func (d *cnDriver) step() error {
 			rts := d.nodeRts[v.name]
 			validity := "ok"
 			switch x := d.rng.Intn(12); {
-			case x < 3 && len(d.rtOwner) > 0 && rts == "":
-				for r := range d.rtOwner { // join a registered runtime as a compute worker
-					rts = r
-					break
+			case x < 6 && len(d.rtOwner) > 0 && rts == "":
+				// join registered runtimes as a compute worker (sorted: map order must not leak into the seeded scenario)
+				var names []string
+				for r := range d.rtOwner {
+					names = append(names, r)
+				}
+				sort.Strings(names)
+				rts = names[d.rng.Intn(len(names))]
+				if len(names) > 1 && d.rng.Intn(3) == 0 {
+					rts = strings.Join(names, ",")
 				}
 			case x == 3 && rts != "" && i != 1 && d.nodeActive(v.name, epochNow):
 				rts, validity = "", "dropruntime" // an active node may not drop a runtime: must fail (node 1 always renews: precondition)
@@ -384,7 +390,8 @@ func (d *cnDriver) step() error {
 				validity = "notowner"
 			}
 		}
-		sp := &cnTxSpec{Kind: "regruntime", Signer: e, To: r, Gov: []string{"entity", "entity", "runtime"}[d.rng.Intn(3)], Nonce: uint64(d.acctField(e, "n")) + nonceBump[e], Gas: 5000, Validity: validity}
+		sp := &cnTxSpec{Kind: "regruntime", Signer: e, To: r, Gov: []string{"entity", "entity", "runtime"}[d.rng.Intn(3)],
+			Shape: fmt.Sprintf("g%db%dm%dp%dv%d", 1+d.rng.Intn(2), d.rng.Intn(3), d.rng.Intn(3), d.rng.Intn(2), btoi(d.rng.Intn(4) == 0)), Nonce: uint64(d.acctField(e, "n")) + nonceBump[e], Gas: 5000, Validity: validity}
 		if raw, err := n.buildTx(sp, d.rng); err == nil {
 			nonceBump[e]++
 			metas = append(metas, cnTxMeta{sp, raw})
